@@ -239,6 +239,57 @@ func runThorough(c *Check, fn checkFn) {
 		}
 	}
 
+	// ---- 2b. rule controls: one hand-written change per rule that no seeded change exercises (/verif/rulectl/<rule>-k:
+	// one instance of that rule broken, still compiles); the named rule itself must report it, so that a rule whose
+	// expected count on the tree is zero is known to be able to fire
+	rcRoot := filepath.Join(home(), "rulectl")
+	rents, _ := os.ReadDir(rcRoot)
+	var rcres []map[string]interface{}
+	var rcpending []variantJob
+	var rcrules []string
+	for _, e := range rents {
+		if !e.IsDir() {
+			continue
+		}
+		mb, err := os.ReadFile(filepath.Join(rcRoot, e.Name(), "meta.json"))
+		if err != nil {
+			continue
+		}
+		var m struct{ ID, Rule, Property, What string }
+		if json.Unmarshal(mb, &m) != nil || m.Property != c.ID {
+			continue
+		}
+		r := map[string]interface{}{"control": m.ID, "rule": m.Rule, "what": m.What}
+		rcpending = append(rcpending, variantJob{r: r, patch: filepath.Join(rcRoot, e.Name(), "patch.diff")})
+		rcrules = append(rcrules, m.Rule)
+	}
+	runVariants(c.ID, rcpending)
+	rcok := 0
+	for k, j := range rcpending {
+		hit := false
+		for _, key := range j.keys {
+			if strings.HasPrefix(key, rcrules[k]+"|") {
+				hit = true
+			}
+		}
+		switch {
+		case j.status != "decided":
+			j.r["result"] = j.status
+		case hit:
+			j.r["result"] = "reported by the rule"
+			rcok++
+		default:
+			j.r["result"] = "MISSED"
+			j.r["violations"] = j.keys
+		}
+		rcres = append(rcres, j.r)
+		if j.r["result"] != "reported by the rule" {
+			fmt.Printf("SELF-VALIDATION WARNING: check %s rule %s does not report its rule control %v: %v\n", c.ID, rcrules[k], j.r["control"], j.r["result"])
+		}
+	}
+	c.Extra["rule_controls"] = map[string]interface{}{"controls": len(rcpending), "reported_by_their_rule": rcok, "results": rcres,
+		"note": "hand-written single-instance breaks of rules that no seeded change exercises; applied in memory like the seeds"}
+
 	// ---- 3. negative controls: committed behaviour-preserving refactorings (/verif/negctl/*/patch.diff) that touch a
 	// package this check analyses are applied in memory; the check must stay silent on them
 	pkgs := map[string]bool{}
